@@ -277,6 +277,28 @@ func (g *gen) genCtor(big bool) *Ctor {
 		for i := 1; i <= np+nt; i++ {
 			used[numV(float64(i))] = true
 		}
+		// explicit fields that name an index a positional item (or a value of the tail) also fills, with the
+		// very value of that item: the manual leaves the order of the assignments in a constructor open, and
+		// with equal values every order gives the same table
+		if np+nt > 0 && g.r.Intn(3) == 0 {
+			for n := 1 + g.r.Intn(3); n > 0; n-- {
+				i := 1 + g.r.Intn(np+nt)
+				k := numV(float64(i))
+				if used[k+"dup"] {
+					continue
+				}
+				used[k+"dup"] = true
+				v := vNil
+				if i <= np {
+					v = c.Pos[i-1]
+				} else {
+					v = c.Tail[i-1-np]
+				}
+				c.Keys = append(c.Keys, k)
+				c.Vals = append(c.Vals, v)
+				c.Call = append(c.Call, g.r.Intn(3) == 0)
+			}
+		}
 		nk := g.r.Intn(6)
 		for i := 0; i < nk; i++ {
 			var k V
